@@ -84,7 +84,7 @@ def run_shorthand(facts, fam, tier, t0):
     text = z3.String("text")
     joins = [ExtVal(f"<required join {i}>") for i in range(njoins)]
     holder = {"visits": 0, "tok": 0, "parse": 0}
-    joined = E.uf("already_joined", E.PV, z3.BoolSort())
+    joined = None
 
     def k_tok(E_, path, fref, args, kwargs):
         path.ghost["tok"] = path.ghost.get("tok", 0) + 1
@@ -104,12 +104,15 @@ def run_shorthand(facts, fam, tier, t0):
             self_obj.attrs["join_relationships"] = ListObj(list(joins))
         return ExtVal("where", [args[1]])
 
+    existing0 = z3.Const("existing_joins", c["U"].Seq)
+
     def k_joined(E_, path, fref, args, kwargs):
-        return ExtVal("<existing joins>", list(args))
+        # the names of the relationships the incoming query already joins: some list of strings (what _get_joined_attrs
+        # reads from SQLAlchemy's private _setup_joins is out of reach); a real list, so later mutations are seen
+        path.assume_fact(c["S"].all_str(existing0))
+        return ListObj(existing0, fresh=True)
 
     def in_hook(E_, path, x, cont):
-        if is_ext(cont, "<existing joins>"):
-            return SBool(joined(E_.to_pv(x)))
         raise Unsupported("`in` on an external value")
     saved = (dict(E.contracts), dict(E.ext_models))
     for qn in ("sly.lex.Lexer.tokenize", G.LEXER + ".tokenize"):
@@ -135,7 +138,7 @@ def run_shorthand(facts, fam, tier, t0):
                 continue
             v = oc[1]
             pcs = [z3.simplify(x) for x in path.pc]
-            ok, why = compose_ok(E, bkey, v, joins, joined, path, pcs)
+            ok, why = compose_ok(E, bkey, v, joins, existing0, path, pcs)
             out.append(res(name + ":post.compose", "post.compose", ok, t0, why, {"source": src_of(m), "path": i, "witness": {"backend": bkey},
                                                                                  "info": {"result": repr(v)[:300]}}))
             vis = path.ghost.get("visitor")
@@ -167,7 +170,7 @@ def instances_ok(bkey, vis, path):
     return ok, ("the visitor is built for the model / table of the incoming query" if ok else f"the visitor is built for {r}")
 
 
-def compose_ok(E, bkey, v, joins, joined, path, pcs):
+def compose_ok(E, bkey, v, joins, existing0, path, pcs):
     f = call_of(v, "filter") or (call_of(v, "where") if bkey != "django" else None)      # Select.where is filter's synonym
     if f is None:
         return False, f"the result is not <something>.filter(where): {v!r}"[:300]
@@ -203,8 +206,8 @@ def compose_ok(E, bkey, v, joins, joined, path, pcs):
     # which joins must be present on this path: those for which the path says neither spelling is already joined
     want = []
     for jv in joins:
-        s1 = joined(E.to_pv(E.to_str(path, jv)))
-        s2 = joined(E.to_pv(E.to_str(path, ExtVal("getattr", [jv, "key"]))))
+        s1 = z3.Contains(existing0, z3.Unit(E.to_pv(E.to_str(path, jv))))
+        s2 = z3.Contains(existing0, z3.Unit(E.to_pv(E.to_str(path, ExtVal("getattr", [jv, "key"])))))
         already = path.entails(z3.Or(s1, s2))
         needed = path.entails(z3.And(z3.Not(s1), z3.Not(s2)))
         if not (already or needed):
